@@ -53,11 +53,11 @@ import (
 	"reflect"
 	"runtime"
 	"slices"
-	"sync/atomic"
 	_ "unsafe"
 
 	"golang.org/x/tools/go/ssa"
 	"strings"
+	"sync"
 )
 
 type continuation int
@@ -90,6 +90,8 @@ type interpreter struct {
 	runtimeErrorString types.Type             // the runtime.errorString type
 	sizes              types.Sizes            // the effective type-sizing function
 	goroutines         int32                  // atomically updated
+	ex                 *Explorer              // per-worker exploration state
+	inited             map[*ssa.Package]bool
 }
 
 type deferred struct {
@@ -111,6 +113,7 @@ type frame struct {
 	panicking        bool
 	panic            interface{}
 	phitemps         []value // temporaries for parallel phi assignment
+	curInstr         ssa.Instruction
 }
 
 func (fr *frame) get(key ssa.Value) value {
@@ -124,9 +127,7 @@ func (fr *frame) get(key ssa.Value) value {
 	case *ssa.Const:
 		return constValue(key)
 	case *ssa.Global:
-		if r, ok := fr.i.globals[key]; ok {
-			return r
-		}
+		return fr.i.global(key)
 	}
 	if r, ok := fr.env[key]; ok {
 		return r
@@ -254,7 +255,7 @@ func visitInstr(fr *frame, instr ssa.Instruction) continuation {
 
 	case *ssa.If:
 		succ := 1
-		if EX.branch(fr.get(instr.Cond)) {
+		if fr.i.ex.branchAt(instr, fr.get(instr.Cond)) {
 			succ = 0
 		}
 		fr.prevBlock, fr.block = fr.block, fr.block.Succs[succ]
@@ -279,11 +280,9 @@ func visitInstr(fr *frame, instr ssa.Instruction) continuation {
 
 	case *ssa.Go:
 		fn, args := prepareCall(fr, &instr.Call)
-		atomic.AddInt32(&fr.i.goroutines, 1)
-		go func() {
-			call(fr.i, nil, instr.Pos(), fn, args)
-			atomic.AddInt32(&fr.i.goroutines, -1)
-		}()
+		// Goroutines are run inline to completion at the go statement
+		// (one schedule; see DESIGN §2.4).
+		runGoroutine(fr, instr, fn, args)
 
 	case *ssa.MakeChan:
 		fr.env[instr] = make(chan value, asInt64(fr.get(instr.Size)))
@@ -316,7 +315,7 @@ func visitInstr(fr *frame, instr ssa.Instruction) continuation {
 		if !fitsInt(reserve, fr.i.sizes) {
 			panic(fmt.Sprintf("ssa.MakeMap.Reserve value %d does not fit in int", reserve))
 		}
-		fr.env[instr] = makeMap(instr.Type().Underlying().(*types.Map).Key(), reserve)
+		fr.env[instr] = makeMap(fr.i.ex, instr.Type().Underlying().(*types.Map).Key(), reserve)
 
 	case *ssa.Range:
 		fr.env[instr] = rangeIter(fr.get(instr.X), instr.X.Type())
@@ -510,9 +509,14 @@ func callSSA(i *interpreter, caller *frame, callpos token.Pos, fn *ssa.Function,
 		caller: caller, // for panic/recover
 		fn:     fn,
 	}
-	CurFrame = fr
-	if fn.Synthetic == "package initializer" && fn.Pkg != nil && !InitOK(fn.Pkg.Pkg.Path()) {
-		return nil
+	ex := i.ex
+	ex.curFrame = fr
+	defer func() { ex.curFrame = caller }()
+	if fn.Synthetic == "package initializer" && fn.Pkg != nil {
+		if !InitOK(fn.Pkg.Pkg.Path()) {
+			return nil
+		}
+		i.inited[fn.Pkg] = true
 	}
 	if fn.Parent() == nil {
 		name := fn.String()
@@ -520,6 +524,9 @@ func callSSA(i *interpreter, caller *frame, callpos token.Pos, fn *ssa.Function,
 			fn = alt
 			fr.fn = alt
 			name = fn.String()
+		}
+		if se := symExternals[name]; se != nil && anySym(args) {
+			return se(fr, args)
 		}
 		if ext := externals[name]; ext != nil {
 			if i.mode&EnableTracing != 0 {
@@ -537,6 +544,9 @@ func callSSA(i *interpreter, caller *frame, callpos token.Pos, fn *ssa.Function,
 		panic("interp requires ssa.BuilderMode to include InstantiateGenerics to execute generics")
 	}
 
+	if fn.Pkg != nil && strings.HasPrefix(fn.Pkg.Pkg.Path(), "metacontroller/") {
+		ex.funcs[fn.String()] = true
+	}
 	fr.env = make(map[ssa.Value]value)
 	fr.block = fn.Blocks[0]
 	fr.locals = make([]value, len(fn.Locals))
@@ -553,7 +563,6 @@ func callSSA(i *interpreter, caller *frame, callpos token.Pos, fn *ssa.Function,
 	for fr.block != nil {
 		runFrame(fr)
 	}
-	CurFrame = caller
 	// Destroy the locals to avoid accidental use after return.
 	for i := range fn.Locals {
 		fr.locals[i] = bad{}
@@ -586,6 +595,12 @@ func runFrame(fr *frame) {
 		}
 		fr.panicking = true
 		fr.panic = recover()
+		switch fr.panic.(type) {
+		case pathAbort, engineUnsupported:
+			panic(fr.panic)
+		case *runtime.TypeAssertionError:
+			panic(fr.panic)
+		}
 		if fr.i.mode&EnableTracing != 0 {
 			fmt.Fprintf(os.Stderr, "Panicking: %T %v.\n", fr.panic, fr.panic)
 		}
@@ -606,6 +621,11 @@ func runFrame(fr *frame) {
 				} else {
 					fmt.Fprintln(os.Stderr, "\t", instr)
 				}
+			}
+			fr.curInstr = instr
+			if fr.i.ex.steps++; fr.i.ex.steps > fr.i.ex.cfg.MaxSteps {
+				fr.i.ex.inconclusive("bound-exceeded: instruction budget")
+				panic(pathAbort{"steps"})
 			}
 			if visitInstr(fr, instr) == kReturn {
 				return
@@ -681,99 +701,108 @@ func doRecover(caller *frame) value {
 	return iface{}
 }
 
-// Interpret interprets the Go program whose main package is mainpkg.
-// mode specifies various interpreter options.  filename and args are
-// the initial values of os.Args for the target program.  sizes is the
-// effective type-sizing function for this program.
-//
-// Interpret returns the exit code of the program: 2 for panic (like
-// gc does), or the argument to os.Exit for normal termination.
-//
-// The SSA program must include the "runtime" package.
-//
-// Type parameterized functions must have been built with
-// InstantiateGenerics in the ssa.BuilderMode to be interpreted.
-func Interpret(mainpkg *ssa.Package, mode Mode, sizes types.Sizes, filename string, args []string) (exitCode int) {
-	i := &interpreter{
-		prog:       mainpkg.Prog,
-		globals:    make(map[*ssa.Global]*value),
-		mode:       mode,
-		sizes:      sizes,
-		goroutines: 1,
-	}
-	runtimePkg := i.prog.ImportedPackage("runtime")
-	if runtimePkg == nil {
-		panic("ssa.Program doesn't include runtime package")
-	}
-	i.runtimeErrorString = runtimePkg.Type("errorString").Object().Type()
 
-	initReflect(i)
+// InitAllow lists package path prefixes whose initialisers are run.
+var InitAllow = []string{"metacontroller/"}
 
-	i.osArgs = append(i.osArgs, filename)
-	for _, arg := range args {
-		i.osArgs = append(i.osArgs, arg)
-	}
-
-	for _, pkg := range i.prog.AllPackages() {
-		// Initialize global storage.
-		for _, m := range pkg.Members {
-			switch v := m.(type) {
-			case *ssa.Global:
-				cell := zero(mustDeref(v.Type()))
-				i.globals[v] = &cell
-			}
-		}
-	}
-
-	// Top-level error handler.
-	exitCode = 2
-	defer func() {
-		if exitCode != 2 || i.mode&DisableRecover != 0 {
-			return
-		}
-		switch p := recover().(type) {
-		case exitPanic:
-			exitCode = int(p)
-			return
-		case targetPanic:
-			fmt.Fprintln(os.Stderr, "panic:", toString(p.v))
-		case runtime.Error:
-			fmt.Fprintln(os.Stderr, "panic:", p.Error())
-		case string:
-			fmt.Fprintln(os.Stderr, "panic:", p)
-		default:
-			fmt.Fprintf(os.Stderr, "panic: unexpected type: %T: %v\n", p, p)
-		}
-
-		// TODO(adonovan): dump panicking interpreter goroutine?
-		// buf := make([]byte, 0x10000)
-		// runtime.Stack(buf, false)
-		// fmt.Fprintln(os.Stderr, string(buf))
-		// (Or dump panicking target goroutine?)
-	}()
-
-	// Run!
-	call(i, nil, token.NoPos, mainpkg.Func("init"), nil)
-	if mainFn := mainpkg.Func("main"); mainFn != nil {
-		call(i, nil, token.NoPos, mainFn, nil)
-		exitCode = 0
-	} else {
-		fmt.Fprintln(os.Stderr, "No main function.")
-		exitCode = 1
-	}
-	return
-}
-
-var InitAllow = []string{"zzprobe"}
-var _ = strings.HasPrefix
+// InitAllowExact lists dependency packages whose own initialiser is run
+// (without running the initialisers of their imports unless also listed).
+var InitAllowExact = map[string]bool{}
 
 func InitOK(path string) bool {
+	if InitAllowExact[path] {
+		return true
+	}
 	for _, a := range InitAllow {
-		if path == a {
+		if strings.HasPrefix(path, a) {
 			return true
 		}
 	}
 	return false
+}
+
+func (i *interpreter) ensureInit(pkg *ssa.Package) {
+	if i.inited[pkg] {
+		return
+	}
+	if f := pkg.Func("init"); f != nil {
+		call(i, nil, token.NoPos, f, nil)
+	}
+}
+
+// global returns the cell of a package-level variable, allocating it lazily.
+// Reading a variable that its (not executed) package initialiser would have
+// set makes the path inconclusive instead of silently using the zero value.
+func (i *interpreter) global(g *ssa.Global) *value {
+	if r, ok := i.globals[g]; ok {
+		return r
+	}
+	if g.Pkg != nil && !InitOK(g.Pkg.Pkg.Path()) && needsInit(g) && !BenignGlobals[g.String()] {
+		if alt := GlobalInit[g.String()]; alt != nil {
+			cell := alt(i)
+			i.globals[g] = &cell
+			return &cell
+		}
+		panic(engineUnsupported{"read of dependency global not initialised by the executor: " + g.String()})
+	}
+	cell := zero(mustDeref(g.Type()))
+	i.globals[g] = &cell
+	return &cell
+}
+
+// BenignGlobals may be used with their zero value although their package
+// initialiser assigns them (each entry is justified in DESIGN.md).
+var BenignGlobals = map[string]bool{}
+
+// GlobalInit supplies values for selected dependency globals.
+var GlobalInit = map[string]func(i *interpreter) value{}
+
+var needsInitMu sync.Mutex
+var needsInitCache = map[*ssa.Package]map[*ssa.Global]bool{}
+
+func needsInit(g *ssa.Global) bool {
+	needsInitMu.Lock()
+	defer needsInitMu.Unlock()
+	m, ok := needsInitCache[g.Pkg]
+	if !ok {
+		m = map[*ssa.Global]bool{}
+		for name, mem := range g.Pkg.Members {
+			f, ok := mem.(*ssa.Function)
+			if !ok || !(name == "init" || strings.HasPrefix(name, "init#")) {
+				continue
+			}
+			for _, b := range f.Blocks {
+				for _, ins := range b.Instrs {
+					var addr ssa.Value
+					switch st := ins.(type) {
+					case *ssa.Store:
+						addr = st.Addr
+					case *ssa.MapUpdate:
+						addr = st.Map
+					default:
+						continue
+					}
+					for addr != nil {
+						switch a := addr.(type) {
+						case *ssa.Global:
+							m[a] = true
+							addr = nil
+						case *ssa.FieldAddr:
+							addr = a.X
+						case *ssa.IndexAddr:
+							addr = a.X
+						case *ssa.UnOp:
+							addr = a.X
+						default:
+							addr = nil
+						}
+					}
+				}
+			}
+		}
+		needsInitCache[g.Pkg] = m
+	}
+	return m[g]
 }
 
 func mustDeref(t types.Type) types.Type {
@@ -783,11 +812,15 @@ func mustDeref(t types.Type) types.Type {
 	panic("mustDeref: not a pointer: " + t.String())
 }
 
-// redirect maps a dependency function to its Go-source model by table.
+// Redirect maps a dependency function (by ssa.Function.String()) to its
+// Go-source model "pkgpath.Func".
 var Redirect = map[string]string{}
+var redirMu sync.Mutex
 var redirCache = map[*ssa.Function]*ssa.Function{}
 
 func redirect(fn *ssa.Function) *ssa.Function {
+	redirMu.Lock()
+	defer redirMu.Unlock()
 	if alt, ok := redirCache[fn]; ok {
 		return alt
 	}
@@ -805,12 +838,20 @@ func redirect(fn *ssa.Function) *ssa.Function {
 	return alt
 }
 
-var CurFrame *frame
+func runGoroutine(fr *frame, instr *ssa.Go, fn value, args []value) {
+	call(fr.i, nil, instr.Pos(), fn, args)
+}
 
-func StackString() string {
-	var b strings.Builder
-	for f := CurFrame; f != nil; f = f.caller {
-		b.WriteString("  " + f.fn.String() + "\n")
+// branchAt decides a conditional jump; a per-instruction visit counter on
+// symbolic conditions implements the loop bound (unwinding assertion).
+func (e *Explorer) branchAt(instr ssa.Instruction, c value) bool {
+	if _, ok := c.(bool); ok {
+		return c.(bool)
 	}
-	return b.String()
+	e.loopCnt[instr]++
+	if e.loopCnt[instr] > 64 {
+		e.inconclusive("bound-exceeded: symbolic loop unwinding (64)")
+		panic(pathAbort{"unwind"})
+	}
+	return e.branch(c)
 }
